@@ -203,6 +203,7 @@ impl Ctx {
             replayed: 0,
             extra: Map::new(),
         };
+        pan::set_identity(&ctx.id, ctx.verif_dir.clone(), &ctx.tier, ctx.seed);
         ctx.load_known();
         if ctx.replay.is_none() {
             ctx.load_stored();
@@ -391,7 +392,8 @@ impl Ctx {
                     .push(format!("stored replay {} does not deserialize: {}", file, e)),
                 Ok(t) => {
                     let mut st = Stats::default();
-                    let r = pan::catch(|| check(&t, &mut st)).unwrap_or_else(|p| Err(format!("panic: {}", p)));
+                    let r = pan::with_case(sub, &|| case.clone(), || pan::catch(|| check(&t, &mut st)))
+                        .unwrap_or_else(|p| Err(format!("panic: {}", p)));
                     self.replayed += 1;
                     match r {
                         Ok(()) => {
@@ -419,7 +421,8 @@ impl Ctx {
             Err(e) => self.inconclusive.push(format!("replay case does not deserialize: {}", e)),
             Ok(t) => {
                 let mut st = Stats::default();
-                let r = pan::catch(|| check(&t, &mut st)).unwrap_or_else(|p| Err(format!("panic: {}", p)));
+                let r = pan::with_case(sub, &|| case.clone(), || pan::catch(|| check(&t, &mut st)))
+                    .unwrap_or_else(|p| Err(format!("panic: {}", p)));
                 self.evaluations += 1;
                 match r {
                     Ok(()) => println!("REPLAY-PASS property={} sub={}", self.id, sub),
@@ -462,7 +465,8 @@ impl Ctx {
         let idx = Cell::new(0u64);
         let result = runner.run(&strategy, |t| {
             let mut st = Stats::default();
-            let r = pan::catch(|| check(&t, &mut st)).unwrap_or_else(|p| Err(format!("panic: {}", p)));
+            let r = pan::with_case(sub, &|| serde_json::to_value(&t).unwrap_or(Value::Null), || pan::catch(|| check(&t, &mut st)))
+                .unwrap_or_else(|p| Err(format!("panic: {}", p)));
             match r {
                 Ok(()) => {
                     if !failed.get() {
@@ -523,7 +527,8 @@ impl Ctx {
         let mut ok = true;
         for t in iter {
             let mut st = Stats::default();
-            let r = pan::catch(|| check(&t, &mut st)).unwrap_or_else(|p| Err(format!("panic: {}", p)));
+            let r = pan::with_case(sub, &|| serde_json::to_value(&t).unwrap_or(Value::Null), || pan::catch(|| check(&t, &mut st)))
+                .unwrap_or_else(|p| Err(format!("panic: {}", p)));
             match r {
                 Ok(()) => {
                     // distinct by construction: hash (sub, index)
@@ -583,7 +588,8 @@ impl Ctx {
                 for i in (c * chunk)..((c + 1) * chunk).min(n) {
                     let t = make(i);
                     let mut st = Stats::default();
-                    let r = pan::catch(|| check(&t, &mut st)).unwrap_or_else(|p| Err(format!("panic: {}", p)));
+                    let r = pan::with_case(sub, &|| serde_json::to_value(&t).unwrap_or(Value::Null), || pan::catch(|| check(&t, &mut st)))
+                        .unwrap_or_else(|p| Err(format!("panic: {}", p)));
                     match r {
                         Ok(()) => {
                             a.evals += 1 + st.extra_evals;
